@@ -132,7 +132,7 @@ fn case_strategy(tier: Tier) -> impl Strategy<Value = Case> {
     // extra weight on incompressible / nearly incompressible inputs and exact multiples of the block size
     let hard = (prop_oneof![Just(4u8), Just(5u8), Just(6u8), Just(2u8)], 1u32..=6, -1i32..=1, any::<u32>(), any::<u16>(), any::<u16>(), prop::bool::weighted(0.5)).prop_map(move |(kind, k, d, seed, a, b, exact)| {
         let len = if kind == 6 { BLOCK + 1025 + (seed % 90_000) } else if exact { ((k * BLOCK) as i64 + d as i64).max(0) as u32 } else { seed % (max_len.min(700_000)) };
-        Job { data: crate::gen::data::DataSpec { kind, len: len.min(max_len), seed, a, b }, level: 1, chunking: Chunking::Whole, abort_before: 0, abort_arg: 0 }
+        Job { data: crate::gen::data::DataSpec { kind, len: len.min(max_len), seed, a, b }, level: 1, chunking: Chunking::Whole, abort_before: 0, abort_arg: 0, short_drain: 0 }
     });
     prop_oneof![
         3 => c02::case_strategy(tier),
